@@ -269,6 +269,22 @@ class Case:
                     body.append(rb["term"])
                 if not body:
                     body = [{"t": "nop", "sym": 0, "imm": 0}]
+                # realistic input: code never falls off into data or off the
+                # end of its section (the input CFG would otherwise lack a
+                # fallthrough edge that the listing implies)
+                sec_blocks = [rb2 for (si2, rb2) in raw_blocks if si2 == si]
+                kpos = sec_blocks.index(rb) if rb in sec_blocks else -1
+                nxt_code = False
+                pos_in_sec = [gg for gg, (si2, _r) in enumerate(raw_blocks) if si2 == si]
+                me = pos_in_sec.index(g)
+                if me + 1 < len(pos_in_sec):
+                    nxt_code = bool(raw_blocks[pos_in_sec[me + 1]][1]["code"])
+                lastk = self.tab[body[-1]["t"]].kind if body[-1]["t"] in self.tab else "ord"
+                if not nxt_code and lastk in I.FALLS and "ret" in self.tab:
+                    if lastk == "ord":
+                        body.append({"t": "ret", "sym": 0, "imm": 0})
+                    else:
+                        body[-1] = {"t": "ret", "sym": 0, "imm": 0}
                 for k, ri in enumerate(body):
                     tpl = self.tab.get(ri["t"])
                     if tpl is None:
@@ -989,7 +1005,7 @@ def trailing_label_then_insert(case: Case) -> bool:
     for (b, i), eds in by.items():
         if i != len(case.blocks[b].units) or len(eds) < 2:
             continue
-        eds.sort(key=lambda e: e.reg)
+        eds.sort(key=lambda e: (e.i, e.reg))  # application order
         for ed in eds[:-1]:
             items, _ = case.patch_units(ed)
             if items and isinstance(items[-1], Label):
